@@ -272,6 +272,18 @@ struct Conn {
     auth: SimAuthState,
 }
 
+static TOKENS: Mutex<Vec<(usize, String)>> = Mutex::new(Vec::new());
+
+/// Replace {{TOKEN:<step>}} by the session token the AUTH command of that step returned.
+fn substitute(text: &str) -> String {
+    let mut out = text.to_string();
+    let toks = TOKENS.lock().unwrap();
+    for (step, tok) in toks.iter() {
+        out = out.replace(&format!("{{{{TOKEN:{}}}}}", step), tok);
+    }
+    out
+}
+
 struct Pending {
     handle: JoinHandle<()>,
     done: Arc<Mutex<bool>>,
@@ -290,6 +302,7 @@ async fn run_line(
     let mut stage = "dispatch";
     match check_auth(line.trim(), &mut c.auth).await {
         Some(("OK", _, u, Some(token))) => {
+            TOKENS.lock().unwrap().push((step, token.clone()));
             out.extend_from_slice(format!("OK TOKEN {}\n", token).as_bytes());
             user = u;
             stage = "auth-ok";
@@ -485,7 +498,7 @@ fn main() {
                             }))
                         })
                         .clone();
-                    let text = st["text"].as_str().unwrap_or("").to_string();
+                    let text = substitute(st["text"].as_str().unwrap_or(""));
                     log(json!({"t":"issue","seq":seq(),"step":i,"conn":cid,
                                "wall_ms":seams::WALL_NS.load(Ordering::SeqCst)/1_000_000,
                                "io":seams::IO_COUNT.load(Ordering::SeqCst)}));
